@@ -175,10 +175,11 @@ CLAIMED["C20"] = dict(
          "Tie: suite `chain` runs chains of 2-4 filter csvpaths (preceding on a suffix) and compares every member with the same filter run "
          "alone on its predecessor's lines, the manifests' actual_data_file, and the Lean chain model under recorded matcher scripts; "
          "reference cases evaluate $g.variables.v, $g.variables.t.k, $g.headers.h and a results reference as file name after 1-3 runs of g "
-         "under an injected clock.",
+         "under an injected clock. Source tie (T): `ResultsManager.has_lines` (which decides whether a referenced group has data to hand on) is translated "
+         "from /repo's working tree on every run and proved to hold exactly when some member collected a line (Props/ResultsTie.c20_has_lines_source).",
     note="Known finding preceding-after-empty. Default dialect only. get_variables' first-member-wins merge is modelled as is; the statement is "
          "claimed for variables written by one member.",
-    technique="Lean 4 proof (composition of parametric stage runs; list lemmas for merged variables) + correspondence",
+    technique="Lean 4 proof (composition of parametric stage runs; list lemmas for merged variables) + source translator with bridging theorem (has_lines incl. its loop) + correspondence",
     design="6/C20",
 )
 
@@ -252,9 +253,9 @@ CLAIMED["C04"] = dict(
          "verdict never returns to True (c04_run_monotone, c04_loop_never_writes); the manifest's all_valid is the conjunction of the "
          "members' verdicts (c04_aggregate). Tie: suite `interp` with conditional fail()/fail_and_stop()/failed()/valid() and "
          "error-provoking components under all policies, and suite `validity` for results_manager.is_valid and the manifest of real "
-         "named-paths runs. Source tie (T): `Equality._do_when` (the `->` operator) is translated from /repo's working tree on every run and proved to compute `Model.WhenTop.whenDo` — the right-hand side runs exactly when the left-hand side answers True, in the state the left-hand side left, and is not called otherwise — for every pair of sides that keep the stated contract; the interpreter model's `evalWhen` is an instance (Props/WhenTie). `Fail._decide_match` is translated as well: fail() always clears the verdict (Props/ControlTie.c04_fail_source).",
+         "named-paths runs. Source tie (T): `Equality._do_when` (the `->` operator) is translated from /repo's working tree on every run and proved to compute `Model.WhenTop.whenDo` — the right-hand side runs exactly when the left-hand side answers True, in the state the left-hand side left, and is not called otherwise — for every pair of sides that keep the stated contract; the interpreter model's `evalWhen` is an instance (Props/WhenTie). `Fail._decide_match` is translated as well: fail() always clears the verdict (Props/ControlTie.c04_fail_source); so is `ResultsManager.is_valid`, whose loop is proved to return the conjunction of the members' results for every group (Props/ResultsTie.c04_aggregate_source).",
     note=INTERP_NOTE + " Known finding result-valid-needs-start (no-run member) is listed in known-findings.txt.",
-    technique="Lean 4 proof (effect-list invariant, monotonicity by induction over records) + source translator with bridging theorems (_do_when, Fail._decide_match) + correspondence + oracle",
+    technique="Lean 4 proof (effect-list invariant, monotonicity by induction over records) + source translator with bridging theorems (_do_when, Fail._decide_match, ResultsManager.is_valid incl. its loop) + correspondence + oracle",
     design="6/C04",
 )
 CLAIMED["C13"] = dict(
